@@ -7,7 +7,10 @@ correspondence: (a) the static _extract_rc of the real dsh.c on generated lines,
                 execcmd.c on real children, (d) the scratch-built pdsh binary with -R exec and a helper command,
                 (k) -k: which statement ends the run and what has become of the siblings (transport event log / start and
                 term traces of real commands) vs the transition system Dsh/ExitKill.lean, (m) a real in-band transport
-                module next to exec in one run, (r) one real command line per refusal path of Dsh/ExitRefuse.lean;
+                module next to exec in one run, (r) one real command line per refusal path of Dsh/ExitRefuse.lean,
+                (s) the REAL rsh module (xrcmd.c) against a scripted rsh server that sends the handshake status byte and the
+                marker line in one write / apart, or denies (a failure without any return code) (vlib/exitrsh.py),
+                (h) the real binary started with SIGCHLD inherited as ignored (vlib/exitchld.py, Dsh/ExitChld.lean);
                 each vs `pdshmodel exit model <variant>`; the errx / exit call sites of opt.c and main.c are enumerated
                 by a generated probe (harness/consts/exitsites.c) and tied to the model by theorems
 oracle:         ExitSpec.admissible (`pdshmodel exit spec`) on the real process exit status of (b) and (d)
@@ -565,6 +568,9 @@ def run(ctx):
                    "as per-target prefix, one line longer than the relay buffer before the marker; (r) one or more real command "
                    "lines per refusal path of the model (environment, option values, user names, usage, host words, target file, "
                    "transport, module loading, program name, opt_verify, dsh()'s prologue) with a trace file for \"nothing contacted\"; "
+                   "(s) the real rsh module against a scripted rsh server: {-S, -k, both, neither} x {status byte and marker line in ONE "
+                   "write, 0.4 s apart} x {success, code 3, output then code 255}, a denied target (fails without any return code) "
+                   "alone / first / last; (h) started with SIGCHLD inherited as ignored: {-S, -k, both} x {code 3, signal 9}; "
                    "non-trivial = at least one target does not simply succeed (non-zero code, signal, failure, marker with "
                    "preceding text or later lines); distinct = distinct case text"}
     dist = {"xrc": 0, "xrc_with_marker": 0, "xd": 0, "dsh_domain": 0, "dsh_raw": 0, "cli": 0, "cli_refused": 0,
@@ -876,7 +882,7 @@ def run(ctx):
                       "Gen/Dsh.lean regenerated from /repo (RC_MAGIC, RC_FAILED)",
                       "harness/exit_harness.c (scripted rcmd layer with event log), exit_exec.c, exit_helper.c, exit_inband_mod.c "
                       "(in-band transport module), harness/consts/exitsites.c (call-site probe: Gen/Exitsites.lean), "
-                      "vlib/exitkill.py exitmixed.py exitrefuse.py, gcc, ASan/UBSan"],
+                      "vlib/exitkill.py exitmixed.py exitrefuse.py exitrsh.py (scripted rsh server) exitchld.py, gcc, ASan/UBSan"],
         checker_cmd="lake build PdshVerif.Props.C08 && #print axioms on every theorem of Props/C08.lean")
 
 
